@@ -159,6 +159,8 @@ def _known_matcher():
                 continue
             if m.get('job_regex') and not _re.search(m['job_regex'], rec.get('job', '')):
                 continue
+            if m.get('py') and not core._known_py(m['py'], rec):
+                continue
             return k
         return None
     return match
@@ -398,7 +400,8 @@ class Runner:
                 return 'known'
             return 'violation'
         else:
-            if quiet and code == 0:
+            if quiet and code in (0, 3):
+                # (3: the script could not even evaluate the candidate, e.g. a value outside the assumed domain from an incomplete model)
                 return 'spurious'
             self.res.inconclusive.append('%s: counterexample for %s did not reproduce on the plain library (%s) [exit %s] %s' % (
                 job_label, label, args_text, code, out.strip()[-200:]))
